@@ -759,9 +759,50 @@ def translate_scp(repo, out):
     out.append("")
 
 
+# ------------------------------------------------------------------ board/uboot.py: UBootShell.env
+def translate_ub_env(repo, out):
+    tree = parse(repo, "tbot/machine/board/uboot.py")
+    f = find_func(tree, "env", "UBootShell")
+    body = [n for n in f.body if not (isinstance(n, ast.Expr) and isinstance(n.value, ast.Constant) and isinstance(n.value.value, str))]
+    need(len(body) == 3, f"UBootShell.env has {len(body)} statements, expected 3")
+    s0, s1, s2 = body
+    need(isinstance(s0, ast.If) and ast.unparse(s0.test) == "value is not None" and not s0.orelse and len(s0.body) == 1
+         and isinstance(s0.body[0], ast.Expr) and isinstance(s0.body[0].value, ast.Call) and ast.unparse(s0.body[0].value.func) == "self.exec0",
+         "UBootShell.env does not start with `if value is not None: self.exec0(...)`")
+    a = s0.body[0].value.args
+    need(len(a) == 3 and ast.unparse(a[1]) == "var" and ast.unparse(a[2]) == "value" and not s0.body[0].value.keywords, "the set command is not exec0(<cmd>, var, value)")
+    setcmd = const_str(a[0], "the set command")
+    need(isinstance(s1, ast.Assign) and ast.unparse(s1.targets[0]) == "output" and isinstance(s1.value, ast.Call) and ast.unparse(s1.value.func) == "self.exec0"
+         and len(s1.value.args) == 2 and ast.unparse(s1.value.args[1]) == "var" and not s1.value.keywords, "the read-back is not output = self.exec0(<cmd>, var)")
+    getcmd = const_str(s1.value.args[0], "the read-back command")
+    r = s2.value if isinstance(s2, ast.Return) else None
+    need(isinstance(r, ast.Subscript) and ast.unparse(r.value) == "output" and isinstance(r.slice, ast.Slice) and r.slice.step is None
+         and isinstance(r.slice.lower, ast.BinOp) and isinstance(r.slice.lower.op, ast.Add) and ast.unparse(r.slice.lower.left) == "len(var)"
+         and isinstance(r.slice.lower.right, ast.Constant) and isinstance(r.slice.lower.right.value, int)
+         and isinstance(r.slice.upper, ast.UnaryOp) and isinstance(r.slice.upper.op, ast.USub) and isinstance(r.slice.upper.operand, ast.Constant)
+         and isinstance(r.slice.upper.operand.value, int) and r.slice.upper.operand.value > 0, "UBootShell.env does not return output[len(var) + j : -k]")
+    j, k = r.slice.lower.right.value, r.slice.upper.operand.value
+    out.append("(* from tbot/machine/board/uboot.py: UBootShell.env *)")
+    out.append("Definition gen_ub_env (var : list N) (value : option (list N)) (sts : list stage) (c : chan) : x0res * chan * list stage :=")
+    out.append("  let cont (sts1 : list stage) (c1 : chan) :=")
+    out.append(f"    match ub_exec0 [{codepoints(getcmd)}; var] sts1 c1 with")
+    out.append(f"    | (X0Ok out, c2, sts2) => (X0Ok (drop_last {k} (skipn (length var + {j}) out)), c2, sts2)")
+    out.append("    | r => r")
+    out.append("    end in")
+    out.append("  match value with")
+    out.append("  | None => cont sts c")
+    out.append("  | Some v =>")
+    out.append(f"      match ub_exec0 [{codepoints(setcmd)}; var; v] sts c with")
+    out.append("      | (X0Ok _, c1, sts1) => cont sts1 c1")
+    out.append("      | r => r")
+    out.append("      end")
+    out.append("  end.")
+    out.append("")
+
+
 def translate(repo):
     out = ["(* GENERATED by tools/translate.py from the current source of the repository -- do not edit *)",
-           "From TV Require Import Base Regex Channel LogEvent Sh SshScp.", ""]
+           "From TV Require Import Base Regex Channel LogEvent Session Sh SshScp.", ""]
     translate_hush(repo, out)
     translate_shell(repo, "tbot/machine/linux/bash.py", "Bash", "BASH", out)
     translate_shell(repo, "tbot/machine/linux/ash.py", "Ash", "ASH", out)
@@ -774,6 +815,7 @@ def translate(repo):
     translate_env(repo, out)
     translate_ssh(repo, out)
     translate_scp(repo, out)
+    translate_ub_env(repo, out)
     return "\n".join(out) + "\n"
 
 
